@@ -22,6 +22,8 @@ def run_with_requests(case, settle=True):
     with Exec(case) as ex:
         ex.start()
         ex.run_schedule()
+        if any(ev[0] == 'cancel_task' for ev in case.get('schedule', ())):
+            ex.event(['restep'])  # somebody steps the process again in the end
         ex.drain()
         # let a step blocked on a gate reach its boundary (no play, no resume): a pending pause can then take effect
         for _ in range(10):
